@@ -58,6 +58,7 @@ pub fn xws_cases() -> Vec<String> {
     ];
     let mut v = vec![];
     for b in bases {
+        v.push(b.to_string());
         let cs: Vec<char> = b.chars().collect();
         for gap in 0..=cs.len() {
             for ws in [' ', '\t', '\n', '\r'] {
@@ -78,7 +79,7 @@ fn edit_cases() -> Vec<String> {
     let bases = [
         "[a-[b]]", "[a-c-[b]]", "[^a-[b]]", "[a-[b-[c]]]", "x[a-[b]]y", "([a-[b]])", "[a-[b]]|c", "(?:[^a-[b]]|c)d", "(a*){2,3}", "(a|){1,2}b", "^{1,2}a",
         "a${2,3}", "(a?){1,4}?b", "(a)\\1{2}", "(?:a(b))\\2", "\\p{Lu}+", "[\\p{L}-[\\p{Lu}]]", "a{2,}?b",
-        "\\p{IsBasicLatin}", "\\P{IsGreek}", "[\\p{IsLatin-1Supplement}a]", "(?:a)(b)\\2", "(a)(?:b\\1)", "(?:a|(b))\\1",
+        "\\p{IsBasicLatin}", "\\P{IsGreek}", "[\\p{IsLatin-1Supplement}a]", "(?:a)(b)\\2", "(a)(?:b\\1)", "(?:a|(b))\\1", "[a--[b]]", "[\\t-\\r]", "[!-\\-]",
     ];
     let subs = [']', '[', '-', '(', ')', '{', '}', ',', '?', '\\', 'a', '2', '0'];
     let mut v = vec![];
